@@ -53,7 +53,7 @@ let ideal_queue l =
 (* ---------------------------------------------------------------- deque traces *)
 let run_deque toks lines =
   let mem = if kv toks "mem" = Some "conf" then Conf else Libc in
-  let capn = match kv toks "cap" with None | Some "default" -> dEFAULT_CAPACITY | Some c -> n_of_string c in
+  let capn = match kv toks "cap" with None | Some "default" -> dEQUE_DEFAULT_CAPACITY | Some c -> n_of_string c in
   let a = ref (alloc_init (plan_of_string (match kv toks "plan" with Some p -> p | None -> "")) limit) in
   let ((s, r), a') = ok (dq_new_conf mem capn !a) in
   a := a';
@@ -245,7 +245,7 @@ let run_deque toks lines =
 (* ---------------------------------------------------------------- queue traces *)
 let run_queue toks lines =
   let mem = if kv toks "mem" = Some "conf" then Conf else Libc in
-  let capn = match kv toks "cap" with None | Some "default" -> dEFAULT_CAPACITY | Some c -> n_of_string c in
+  let capn = match kv toks "cap" with None | Some "default" -> dEQUE_DEFAULT_CAPACITY | Some c -> n_of_string c in
   let a = ref (alloc_init (plan_of_string (match kv toks "plan" with Some p -> p | None -> "")) limit) in
   let ((s, r), a') = ok (q_new_conf mem capn !a) in
   a := a';
